@@ -26,6 +26,7 @@ paths), that in the handler loop stray uni streams and datagrams return to the s
 the peer map or closing anything while every accept/read error leaves the loop, and that no
 close()/shutdown is reachable from the per-request code.
 The typed-RPC layer between the wire and the handler (Rpc::unary, codecs, Status conversions) has an empty panic inventory (C06.1c, C17.6 re-evaluated); the list of panic-capable calls includes the String / Bytes / slice APIs documented to panic on out-of-range or non-char-boundary arguments.
+The connection manager's own panic sites (reachable through dial results and task joins) keep their re-checked justifications (C08.5 re-evaluated, finding F3b excepted).
 """
 TRUSTED = ["third-party bodies are not analysed: matchit::Router::at, bincode::deserialize, tokio-util codec, quinn (stated, not assumed away)",
            "rustls rejects empty certificate chains when client auth is mandatory (try_peer_id unwraps)"]
@@ -194,6 +195,16 @@ def run(cx):
         ob.count(sum(x.evals for x in w))
         bad = [v for x in w for v in x.violations if "serde-" in v.key]
         ob.require(len(w) == 1 and not bad, "decode/no-custom-serde-hook", "code outside the analysed decode path runs on bytes a peer controls: " + "; ".join(str(v.msg) for v in bad)[:300], "anemo::types::request::RawRequestHeader")
+
+    with cx.ob("C06.1e", "R-PANIC", "the connection manager's own panic sites are reachable through what peers do as well (a dial that fails, a connection that ends, a task that joins): its inventory and the justifications of its 'cannot happen' panics hold (C08.5 re-evaluated, except the runtime-teardown assert recorded as finding F3b)") as ob:
+        from . import c08
+        sub = cx.__class__("C06", prog, cx.tier, cx.config, cx.tree, repo=cx.repo)
+        c08.run(sub)
+        w = [x for x in sub.obs if x.oid == "C08.5"]
+        ob.count(sum(x.evals for x in w))
+        bad = [v for x in w for v in x.violations if not v.key.endswith("assert-active-peers-empty")]
+        ob.require(len(w) == 1 and not bad, "manager/panic-inventory", "a peer can drive the connection manager into a panic (which ends the whole network): " + "; ".join(str(v.msg) for v in bad)[:400],
+                   "anemo::network::connection_manager::ConnectionManager")
 
     with cx.ob("C06.1b", "R-PANIC", "no panic-capable construct executes inside a peer-map / known-peers critical section (discharges lock-poisoning unwraps)") as ob:
         inner = [p for p in prog.bodies if p.startswith(f"{CM}::ActivePeersInner::") and "__CALLSITE" not in p and "::{" not in p]
